@@ -315,8 +315,24 @@ def run(P, R):
     sets = [n for n in own_nodes(u.node) if isinstance(n, ast.Assign) and
             ast.unparse(n.targets[0]) == 'self.stable_identifiers']
     good = [n for n in sets if ast.unparse(n.value) != 'set()']
-    ok = len(good) == 1 and any(isinstance(f.node, ast.Call) and call_text(f.node) == 'all' and f[1]
-                                for f in fm.at(good[0])) and \
+    def all_equal(f):
+        # all(<x> == <list>[0] for <x> in <list>)
+        c = f.node
+        if not (f[1] and isinstance(c, ast.Call) and call_text(c) == 'all' and c.args and
+                isinstance(c.args[0], ast.GeneratorExp)):
+            return None
+        g = c.args[0]
+        e = g.elt
+        if isinstance(e, ast.Compare) and len(e.ops) == 1 and isinstance(e.ops[0], ast.Eq):
+            lst = ast.unparse(g.generators[0].iter)
+            sides = {ast.unparse(e.left), ast.unparse(e.comparators[0])}
+            if sides == {ast.unparse(g.generators[0].target), lst + '[0]'} and not g.generators[0].ifs:
+                return lst
+        return None
+    lists = [all_equal(f) for f in (fm.at(good[0]) if len(good) == 1 else [])]
+    lists = [l for l in lists if l]
+    ok = len(good) == 1 and len(lists) == 1 and ast.unparse(good[0].value) == lists[0] + '[0]' and \
+        any(f[1] and f[0] == lists[0] for f in fm.at(good[0])) and \
         any(ast.unparse(i) == 'self.is_running(identifier)' for n in own_nodes(u.node) if isinstance(n, ast.ListComp)
             for g in n.generators for i in g.ifs)
     R.check(r5, ok, 'stable identifiers are set only when all RUNNING instances agree', 'stable|agreement', u.loc(),
